@@ -113,6 +113,17 @@ PROPS = {
         "level_note": "Element level: how elements are distributed over map data slabs and index slabs is not part of this model (the in-repo VerifyMap checks it in the harness after every mutation)." + GEN_NOTE,
         "technique": "Coq proof (invariant + refinement to an ordered dictionary, for all digest functions) + shape-for-shape lock-step with the implementation under adversarial digesters",
     },
+    "C19": {
+        "props": ["props/C19.v"],
+        "coq_module": "DecodeTrace", "coq_check": "chk_decode",
+        "runs": {"quick": [{"cmd": ["decode", "-prop", "C19"], "engine": "decode", "coq_sample": 3}],
+                 "thorough": [{"cmd": ["decode", "-prop", "C19", "-n", "10000000", "-mode", "thorough"], "engine": "decode", "coq_sample": 6, "timeout": 2400}]},
+        "search": [{"cmd": ["decode", "-prop", "C19", "-n", "2000000"]}],
+        "trusted_base": ["model: coq/theories/DecodeSafe.v — the decoders with Go's PARTIAL operations explicit (slice, index, big-endian reads, make, type assertions yield Panic when out of range): decode.go dispatch, flag.go accessors, the three header queries, NewSlabIDFromRawBytes, array/map index slab decoders v0+v1, data-slab prefixes v0+v1 transcribed line by line; CBOR-driven element/extra-data/inlined-container decoders over a validated item tree. Section hypotheses about fxamacker/cbor: NumBytesDecoded() <= len(data); a validated item occupies at least its size in bytes"],
+        "level_text": "Proved for ALL byte strings: the three header queries never panic and are decided exactly (C19_header_queries, _exact); dispatch, both index-slab decoders (v0, v1) and the data-slab prefixes never panic and allocate at most len+1 units, the child count being checked against the data length before every make (C19_no_panic_fixed, C19_alloc_proportional_fixed); the item-tree decoders never panic for any item/extra-data table and allocate at most 2x the item size (C19_no_panic_items, C19_alloc_items); whole decode never panics, allocation <= 5x (C19_no_panic, C19_alloc_proportional). Termination: every model function is total (structural/fuel recursion). Tie: 500k (quick) / 10M (thorough) mutated registers of every slab kind and both versions through DecodeSlab + queries + accessors with panic/hang/allocation oracles; the model's accept/reject decision and decoded header fields are compared on the structured stream.",
+        "level_note": "PARTIAL: panics inside fxamacker/cbor or Go's runtime (stack depth) are outside the model; the two cbor facts above are hypotheses. Observations outside C19's text (events, not violations): EncodeSlab can panic/over-allocate on an accepted register whose inlined map Count disagrees with its elements; a root map index slab with 0 children is accepted and later iteration panics; a self-referencing external collision group makes iteration loop." + GEN_NOTE,
+        "technique": "Coq proof (outcome monad with explicit Panic; no-panic and allocation bounds for all inputs) + structure-aware mutation stream against the real decoder with the model as accept/reject oracle",
+    },
     "C20": {
         "props": ["props/C20.v"],
         "coq_module": "HealthTrace", "coq_check": "chk_health",
@@ -127,4 +138,4 @@ PROPS = {
 }
 
 NOT_APPLICABLE = {p: "not yet built in this revision (work in progress; see DESIGN.md section 6 build order)" for p in
-                  ["C01","C02","C05","C09","C10","C11","C13","C17","C18","C19"]}
+                  ["C01","C02","C05","C09","C10","C11","C13","C17","C18"]}
